@@ -231,3 +231,21 @@ Lemma table_facts :
   /\ match rev generated_handlers with h :: _ => cls_eqb (h_cls h) CException | [] => false end = true
   /\ forallb (fun h => subclass (h_cls h) CException) generated_handlers = true.
 Proof. exact (conj table_last_resort (conj table_outcome_spec (conj table_catch_all_last table_within_Exception))). Qed.
+
+(* ---------- a forced failure fails the test on every path (fix 889980a) ---------- *)
+Lemma raised_forced p : skipped p = false -> forced p = true -> raised p = raised_by_user p ++ [Exc CFail None].
+Proof. intros S F. unfold raised, forced_failure. now rewrite S, F. Qed.
+
+(* whatever setUp, the test, tearDown or the cleanups raised besides - also inside F2: the forced
+   failure is the last exception raised, so "the last one wins" cannot replace it *)
+Theorem forced_fails i :
+  skipped (i_prog i) = false -> forced (i_prog i) = true ->
+  is_failure_or_error (i_prog i) (Exc CFail None) = true ->
+  exists o, model i = {| o_outs := [o]; o_ok := false |} /\ unsuccessful o = true.
+Proof.
+  intros S F H. apply (no_downgrade_partial i (Exc CFail None)); [| |exact H].
+  - unfold finding_F2. rewrite (raised_forced _ S F), last_last.
+    unfold is_failure_or_error in H.
+    destruct (outcome_of (i_prog i) (Exc CFail None)); try discriminate; cbn [unsuccessful negb]; now rewrite andb_false_r.
+  - rewrite (raised_forced _ S F). apply in_or_app; right; left; reflexivity.
+Qed.
